@@ -71,7 +71,9 @@ def items(tier, seed):
     fixed = [['4', '8'], ['8', '4'], ['1', '2'], ['12', '18', '1/2', '1/3'], ['-2', '4'], ['4', '-2'], ['-2', '1/2'], ['-3', '9', '2'], ['-2', '3', '-6'],
              ['-1', '2', '1/2'], ['9', '27', '3'], ['4', '1/2'], ['2', '2'], ['-1', '-1'], ['1', '1'], ['-1'], ['1'], ['2', '3', '6'], ['2', '1/2'], ['6', '2/3', '4', '9'],
              ['I', '-1'], ['I', '-I'], ['sqrt(2)', '2'], ['1+sqrt(2)', '1-sqrt(2)'], ['(1+sqrt(5))/2', '(1-sqrt(5))/2'], ['-1/2+sqrt(3)*I/2', '-1'],
-             ['sqrt(2)', '2', '4'], ['I', 'sqrt(2)/2+sqrt(2)*I/2'], ['2', 'sqrt(2)', '1/2'], ['1+sqrt(2)', '1-sqrt(2)', '-1']]
+             ['sqrt(2)', '2', '4'], ['I', 'sqrt(2)/2+sqrt(2)*I/2'], ['2', 'sqrt(2)', '1/2'], ['1+sqrt(2)', '1-sqrt(2)', '-1'],
+             # rank >= 2 with multiplicities of which the smallest does not divide the others (a non-unimodular elimination loses generators)
+             ['4', '8', '32'], ['32', '4', '8'], ['9', '27', '243'], ['-4', '8', '32'], ['4', '8', '32', '1/2'], ['8', '32', '128', '3']]
     lists += fixed
     nr = 40 if tier == 'quick' else 400
     for _ in range(nr):
